@@ -37,6 +37,8 @@ def cases(tier, seed):
         nbk = 1 if m < 4 else (4 if m == 4 else 14)
         for blk in range(nbk):
             yield f"C18|gf|m={m}|triples|block{blk:02d}", {"kind": "ftriples", "m": m, "blk": blk, "nblocks": nbk}
+    for m in range(1, (8 if q else 10) + 1):
+        yield f"C18|gf|m={m}|accessors", {"kind": "faccessors", "m": m}
     for m in range(1, 17):
         full = m <= (8 if q else 10)
         nbk = 1 if m < 7 or not full else 8
@@ -150,6 +152,54 @@ def execute(p, res):
         _ftriples(p, res)
     elif kind == "felems":
         _felems(p, res)
+    elif kind == "faccessors":
+        _faccessors(p, res)
+
+
+def _faccessors(p, res):
+    """the field-level entry points next to the element methods: the table of all minimal polynomials, the element list, zero / one, element <->
+    polynomial conversion, equality and hashing"""
+    m = p["m"]
+    cfg = f"m={m}"
+    F = _field(m)
+    R = Field(m, F.modulus.value)
+    N = 1 << m
+    v = lambda clause, d, f=None: res.viol("gf", cfg, clause, d, f)  # noqa: E731
+    try:
+        tab = F.get_minimal_polynomials()
+        tab2 = F.get_minimal_polynomials()
+    except Exception as e:  # noqa: BLE001
+        v("raises", f"get_minimal_polynomials(): {type(e).__name__}: {str(e)[:160]}")
+        tab = tab2 = None
+    if tab is not None:
+        res.ev(N - 1, nontrivial=N - 1, transitions=2)
+        if sorted(tab) != list(range(1, N)):
+            v("minpoly", f"get_minimal_polynomials() has keys {sorted(tab)[:6]}... ({len(tab)} entries), expected every non-zero element 1..{N - 1}")
+        else:
+            for a in range(1, N):
+                got, ref = tab[a].value, R.minpoly(a)
+                if got != ref or tab2[a].value != ref or F(a).minimal_polynomial().value != ref:
+                    v("minpoly", f"get_minimal_polynomials()[{a}] = {bin(got)}, element.minimal_polynomial() = {bin(F(a).minimal_polynomial().value)}, product over the conjugates = {bin(ref) if ref is not None else None}", [a])
+                    break
+    els = F.get_all_elements()
+    res.ev(N, transitions=1)
+    if sorted(e.value for e in els) != list(range(N)):
+        v("field-laws", f"get_all_elements() yields values {sorted(e.value for e in els)[:8]}... ({len(els)} elements)")
+    zero = F.zero() if callable(F.zero) else F.zero
+    one_ = F.one() if callable(F.one) else F.one
+    if zero.value != 0 or one_.value != 1 or (one_ * one_).value != 1 or (zero + one_).value != 1:
+        v("field-laws", f"zero = {zero.value}, one = {one_.value}")
+    for a in range(N):
+        A = F(a)
+        if A.to_polynomial().value != a:
+            v("field-laws", f"F({a}).to_polynomial() = {A.to_polynomial().value}", [a])
+            break
+        if not (A == F(a)) or hash(A) != hash(F(a)) or (a + 1 < N and A == F(a + 1)):
+            v("field-laws", f"equality / hash of element {a} inconsistent", [a])
+            break
+    if m >= 2 and F(1) == _field(m - 1)(1) and not (F == _field(m - 1)):
+        pass    # elements of different fields comparing equal is not covered by the statement
+    res.sample({"m": m, "table_entries": N - 1})
 
 
 def _field(m):
